@@ -935,7 +935,9 @@ def tail_case(prog, n, s0, zero_init):
         sv = np.array(sv, dtype=complex).ravel()
         ref = lf["psi"] / math.sqrt(lf["p"])
         err = float(np.max(np.abs(sv - ref)))
-        if err > TAIL_TOL_STATE:
+        # float residues (~1e-16) of the state before the measurement are amplified by the renormalisation of a RARE branch by
+        # 1/sqrt(p); dominant branches (where a missing projection shows, off by sin(delta/2) >= 5e-7) keep the tight tolerance
+        if err > TAIL_TOL_STATE + 1e-14 / math.sqrt(lf["p"]):
             fails.append(("projection", bs, "conditional state differs from the exactly projected, renormalised branch state by %.3g "
                           "(amplitudes that contradict the measured bits must vanish)" % err))
         fexp = {bitstr(i, n): abs(a) ** 2 for i, a in enumerate(ref) if abs(a) ** 2 >= 1e-10}
